@@ -576,7 +576,11 @@ class Interp:
                         return BoundMethod(base, fi)
                     if attr in k.consts:
                         return self._class_value(k, attr)
+                if attr == "__class__":
+                    return ClassRef(base.cls)
             raise PyRaise(f"AttributeError: {attr}", node)
+        if isinstance(base, ClassRef) and attr in ("__name__", "__qualname__"):
+            return base.cls.short if attr == "__name__" else base.cls.name
         if isinstance(base, SuperRef):
             mro = self.repo.mro(base.obj.cls)
             seen = False
@@ -960,6 +964,10 @@ class Interp:
             raise PyRaise("IndexError", e)
         except KeyError:
             raise PyRaise("KeyError", e)
+        except TypeError as ex:
+            if isinstance(base, (list, tuple, str, bytes, dict)) and "indices must be" in str(ex):
+                raise PyRaise(f"TypeError: {ex}", e)   # a concrete sequence indexed with None / a string: what Python raises
+            raise Undecided(f"subscript: {ex}")
         except Exception as ex:
             raise Undecided(f"subscript: {ex}")
 
